@@ -169,11 +169,23 @@ Theorem eval_closed_channel_refuted :
 Proof. exact C13Proofs.eval_closed_channel_refuted_lemma. Qed.
 Print Assumptions eval_closed_channel_refuted.
 
-(* and no call panics, under the nil guard in When / WhenArgs and with
-   errInternal left open (or guarded) *)
+(* (e) a mutation in flight: the workload goroutine has shifted the queue
+   (its `disposing` guard is behind), the disposal sets `disposed`,
+   newTransition indexes Time(nil) = nil: index out of range in the mutating
+   goroutine. Seen on the real code under background load (replay
+   2_309_*.json); forced deterministically once /repo has the schedule point
+   pq:popped (corpus/C13/add_popped_then_disposed_panic.json) *)
+Theorem popped_window_refuted :
+  exists (handlers : bool) (ndisp : nat) (sched : list nat),
+    cfg_no_panic (exec_sched no_fixes (init_cfg handlers ndisp [KDispose; KAddP]) sched) = false.
+Proof. exact C13Proofs.popped_window_refuted_lemma. Qed.
+Print Assumptions popped_window_refuted.
+
+(* and no call panics, under the nil guard in When / WhenArgs, with
+   errInternal left open (or guarded) and newTransition guarded *)
 Theorem no_api_panic :
   forall (fx : fixes) (handlers : bool) (ndisp : nat) (kinds : list kind) (sched : list nat),
-    fx_nil_guard fx = true -> fx_err_guard fx = true ->
+    fx_nil_guard fx = true -> fx_err_guard fx = true -> fx_tx_guard fx = true ->
     cfg_no_panic (exec_sched fx (init_cfg handlers ndisp kinds) sched) = true.
 Proof. exact C13Proofs.no_api_panic_lemma. Qed.
 Print Assumptions no_api_panic.
